@@ -467,13 +467,17 @@ fn check_alloc(c: &Case) -> Result<(), String> {
     let (n1, n2, n3) = (*n.get(0).unwrap_or(&b'a'), *n.get(1).unwrap_or(&b'b'), *n.get(2).unwrap_or(&b'c'));
     let mut acc = 0usize; // keeps the calls alive
     let mut what = "";
-    let before = ALLOCS.load(std::sync::atomic::Ordering::Relaxed);
+    let mut bad = 0usize; // allocations inside the measured steps (allocations between steps, e.g. into_owned, do not count)
     macro_rules! step {
         ($name:expr, $e:expr) => {{
             let a0 = ALLOCS.load(std::sync::atomic::Ordering::Relaxed);
             let r = $e;
-            if ALLOCS.load(std::sync::atomic::Ordering::Relaxed) != a0 && what.is_empty() {
-                what = $name;
+            let a1 = ALLOCS.load(std::sync::atomic::Ordering::Relaxed);
+            if a1 != a0 {
+                bad += a1 - a0;
+                if what.is_empty() {
+                    what = $name;
+                }
             }
             r
         }};
@@ -524,6 +528,21 @@ fn check_alloc(c: &Case) -> Result<(), String> {
         for p in f.rfind_iter(h) { k += p }
         k
     });
+    // owned finders: building them may allocate (into_owned is the permitted allocator), USING them must not
+    let owned_f = memmem::Finder::new(n).into_owned();
+    let owned_r = memmem::FinderRev::new(n).into_owned();
+    acc += step!("owned Finder: find / as_ref / find_iter / needle", {
+        let g = owned_f.as_ref();
+        let mut k = owned_f.find(h).unwrap_or(0) + g.find(h).unwrap_or(0) + owned_f.needle().len();
+        for p in owned_f.find_iter(h) { k += p }
+        k
+    });
+    acc += step!("owned FinderRev: rfind / as_ref / rfind_iter / needle", {
+        let g = owned_r.as_ref();
+        let mut k = owned_r.rfind(h).unwrap_or(0) + g.rfind(h).unwrap_or(0) + owned_r.needle().len();
+        for p in owned_r.rfind_iter(h) { k += p }
+        k
+    });
     acc += step!("memmem::FinderBuilder (no prefilter)", {
         let mut b = memmem::FinderBuilder::new();
         b.prefilter(memmem::Prefilter::None);
@@ -534,10 +553,9 @@ fn check_alloc(c: &Case) -> Result<(), String> {
     acc += step!("arch::all::rabinkarp", arch::all::rabinkarp::Finder::new(n).find(h, n).unwrap_or(0) + arch::all::rabinkarp::FinderRev::new(n).rfind(h, n).unwrap_or(0));
     acc += step!("arch::all::packedpair", arch::all::packedpair::Finder::new(n).map(|f| f.find_prefilter(h).unwrap_or(0)).unwrap_or(0));
     acc += step!("arch::all::is_prefix/is_suffix/is_equal", arch::all::is_prefix(h, n) as usize + arch::all::is_suffix(h, n) as usize + arch::all::is_equal(h, n) as usize);
-    let after = ALLOCS.load(std::sync::atomic::Ordering::Relaxed);
     std::hint::black_box(acc);
-    if after != before {
-        return Err(format!("{} heap allocation(s) during searching calls; first in: {}", after - before, what));
+    if bad != 0 {
+        return Err(format!("{} heap allocation(s) during searching calls; first in: {}", bad, what));
     }
     Ok(())
 }
